@@ -53,19 +53,20 @@ type deferred struct {
 }
 
 type State struct {
-	vars   map[types.Object]Value
-	mem    map[string]*Term // consumed:<id> sent:<id> closed:<id> ncalls:<fid> fld:<ref>.<name> ...
-	memV   map[string]Value // non-scalar field overrides (slices)
-	pc     []*Term
-	defers []deferred
-	moved  map[string]bool   // stream ids whose read end has been handed over
-	owned  map[string]string // stream ids whose read end this function holds -> description
-	procs  []*ast.GoStmt     // spawned, not yet run
-	dead   bool
+	vars    map[types.Object]Value
+	mem     map[string]*Term // consumed:<id> sent:<id> closed:<id> ncalls:<fid> fld:<ref>.<name> ...
+	memV    map[string]Value // non-scalar field overrides (slices)
+	pc      []*Term
+	defers  []deferred
+	moved   map[string]bool   // stream ids whose read end has been handed over
+	owned   map[string]string // stream ids whose read end this function holds -> description
+	procs   []*ast.GoStmt     // spawned, not yet run
+	readSet map[string]bool   // streams this function has received from (C04 horizon ghost)
+	dead    bool
 }
 
 func newState() *State {
-	return &State{vars: map[types.Object]Value{}, mem: map[string]*Term{}, memV: map[string]Value{}, moved: map[string]bool{}, owned: map[string]string{}}
+	return &State{vars: map[types.Object]Value{}, mem: map[string]*Term{}, memV: map[string]Value{}, moved: map[string]bool{}, owned: map[string]string{}, readSet: map[string]bool{}}
 }
 
 func (s *State) clone() *State {
@@ -85,6 +86,10 @@ func (s *State) clone() *State {
 	}
 	for k, v := range s.owned {
 		n.owned[k] = v
+	}
+	n.readSet = make(map[string]bool, len(s.readSet))
+	for k, v := range s.readSet {
+		n.readSet[k] = v
 	}
 	n.pc = append([]*Term(nil), s.pc...)
 	n.defers = append([]deferred(nil), s.defers...)
